@@ -21,15 +21,15 @@ import (
 func init() { register("C19", C19) }
 
 type defFile struct {
-	Schema      string `json:"$schema"`
-	Key         string `json:"key"`
-	Country     string   `json:"country"`
-	AltCountry  []string `json:"alt_country_codes"`
-	Requires    []string `json:"requires"`
-	Rounding    string   `json:"calculator_rounding_rule"`
-	Currency    string `json:"currency"`
-	TimeZone    string `json:"time_zone"`
-	Tags        []struct {
+	Schema     string   `json:"$schema"`
+	Key        string   `json:"key"`
+	Country    string   `json:"country"`
+	AltCountry []string `json:"alt_country_codes"`
+	Requires   []string `json:"requires"`
+	Rounding   string   `json:"calculator_rounding_rule"`
+	Currency   string   `json:"currency"`
+	TimeZone   string   `json:"time_zone"`
+	Tags       []struct {
 		Schema string `json:"schema"`
 		List   []struct {
 			Key string `json:"key"`
@@ -67,7 +67,7 @@ type defFile struct {
 }
 
 func loadDef(file string) (*defFile, error) {
-	b, err := os.ReadFile(file)
+	b, err := readSubjectFile(file)
 	if err != nil {
 		return nil, err
 	}
@@ -137,8 +137,8 @@ func c19Files(c *core.Ctx) {
 	p := c.P
 	type family struct {
 		prefix, typ, field, dir string
-		aggregator          string
-		lower               bool
+		aggregator              string
+		lower                   bool
 	}
 	for _, f := range []family{
 		{"regimes/", "tax.RegimeDef", "Country", "regimes", "regimes", true},
